@@ -283,11 +283,16 @@ class TidesBase(WorldConfigHolder):
                 semi_major_axis
                 )
 
+        # The tidal terms for each mode are built from the eccentricity and obliquity functions. Track if either was
+        #  updated so that the terms are recalculated even when the frequencies did not change.
+        orbital_functions_updated = False
+
         # Check if we need to calculate new eccentricity results
         if eccentricity is not None:
             if eccentricity_change or self.eccentricity_results is None:
                 self._eccentricity_results = self.eccentricity_func(eccentricity)
                 self._need_to_collapse_modes = True
+                orbital_functions_updated = True
 
 
         # Check if we need to update obliquity results
@@ -296,6 +301,7 @@ class TidesBase(WorldConfigHolder):
                 if obliquity_change or self.obliquity_results is None:
                     self._obliquity_results = self.obliquity_func(obliquity)
                     self._need_to_collapse_modes = True
+                    orbital_functions_updated = True
         else:
             # We assume that the obliquity has the same shape of eccentricity even when it is not being used.
             # OPT: Check to see if we can universally get away with having this just be a scalar rather than a
@@ -308,6 +314,7 @@ class TidesBase(WorldConfigHolder):
                 if self.obliquity_results is None or force_obliquity_update:
                     self._obliquity_results = self.obliquity_func(zero_obliquity)
                     self._need_to_collapse_modes = True
+                    orbital_functions_updated = True
 
         obliquity_results = self.obliquity_results
         eccentricity_results = self.eccentricity_results
@@ -321,8 +328,8 @@ class TidesBase(WorldConfigHolder):
                     'max_tidal_l may not be equal for both functions.'
                     )
 
-        # Determine if new tidal frequencies need to be calculated
-        if spin_freq_changed or orbital_freq_changed:
+        # Determine if new tidal frequencies and tidal terms need to be calculated
+        if spin_freq_changed or orbital_freq_changed or orbital_functions_updated:
             if eccentricity_results is not None and obliquity_results is not None and \
                     spin_frequency is not None and orbital_frequency is not None:
                 # Update the tidal frequencies and terms using the new orbital frequency
